@@ -9,6 +9,7 @@ import (
 	"fmt"
 	"os"
 	"path/filepath"
+	"runtime/debug"
 
 	"github.com/hashicorp/raft-wal/types"
 	"go.etcd.io/bbolt"
@@ -50,7 +51,11 @@ func (db *BoltMetaDB) ensureOpen(dir string) error {
 
 	fileName := filepath.Join(dir, FileName)
 
-	open := func() error {
+	open := func() (err error) {
+		// A damaged or truncated DB file makes bolt panic on its own consistency
+		// checks or fault when it touches mapped pages that lie beyond the end of
+		// the file. Report both as corruption instead of taking the process down.
+		defer catchCorruptDB(&err)()
 		bb, err := bbolt.Open(fileName, 0644, nil)
 		if err != nil {
 			return fmt.Errorf("failed to open %s: %w", FileName, err)
@@ -87,6 +92,20 @@ func (db *BoltMetaDB) ensureOpen(dir string) error {
 
 	// All good, now open it!
 	return open()
+}
+
+// catchCorruptDB returns a func to defer around reads of a bolt file that might
+// be damaged. While it is armed, an access to a mapped page that is missing
+// from the file panics instead of killing the process, and that panic, like the
+// ones bolt raises from its own sanity checks, is turned into ErrCorrupt.
+func catchCorruptDB(err *error) func() {
+	old := debug.SetPanicOnFault(true)
+	return func() {
+		debug.SetPanicOnFault(old)
+		if r := recover(); r != nil {
+			*err = fmt.Errorf("%w: meta DB is damaged: %v", types.ErrCorrupt, r)
+		}
+	}
 }
 
 func safeInitBoltDB(dir string) error {
@@ -149,12 +168,11 @@ func safeInitBoltDB(dir string) error {
 // Load loads the existing persisted state. If there is no existing state
 // implementations are expected to create initialize new storage and return an
 // empty state.
-func (db *BoltMetaDB) Load(dir string) (types.PersistentState, error) {
-	var state types.PersistentState
-
+func (db *BoltMetaDB) Load(dir string) (state types.PersistentState, err error) {
 	if err := db.ensureOpen(dir); err != nil {
 		return state, err
 	}
+	defer catchCorruptDB(&err)()
 
 	tx, err := db.db.Begin(false)
 	if err != nil {
